@@ -97,6 +97,11 @@ def run(tier, seed):
             if bad:
                 rep.violation(bad, {"class": cname, "program": p, "impl": impl,
                                     "replay": base.snippet(cname, p)})
+    # tensor.Tensor.swap (the array-level swap of the tensor class): the block permutation,
+    # checked entry by entry for all small dimension tuples with unequal block lengths
+    bad = tensor_swap_oracle(rep, rng, 3 if tier == "quick" else 4)
+    for what, payload in bad:
+        rep.violation(what, payload)
     base.settle(rep, "C10", proof_ok, "C10")
     return rep.finish(
         rule="per class (monoidal, rigid, tensor, circuit, zx): every (left, right) split of "
@@ -147,3 +152,40 @@ def oracle(ci, cls, kind, a, b, p):
     if ci.canon_ty(d.dom) != dom or any(cod[perm[i]] != dom[i] for i in range(len(perm))):
         return "codomain is not the permuted domain"
     return None
+
+
+def tensor_swap_oracle(rep, rng, maxw):
+    import itertools as it
+    import numpy
+    from discopy.tensor import Tensor, Dim
+    out = []
+    dims_pool = [2, 3]
+    for nl in range(maxw + 1):
+        for nr in range(maxw + 1 - nl):
+            for _ in range(2):
+                l = [rng.choice(dims_pool) for _ in range(nl)]
+                r = [rng.choice(dims_pool) for _ in range(nr)]
+                rep.case(["tensor-array", l, r], nontrivial=(nl + nr >= 2))
+                rep.count("class:tensor-array")
+                try:
+                    t = Tensor.swap(Dim(*l), Dim(*r))
+                except Exception as exc:   # noqa
+                    out.append(("Tensor.swap refused two dimension types with %s" % type(exc).__name__,
+                                {"left": l, "right": r, "replay": "Tensor.swap(Dim(*%r), Dim(*%r))" % (l, r)}))
+                    continue
+                arr = numpy.array(t.array).reshape(tuple(l + r + r + l) or (1,))
+                ok = list(t.dom) == l + r and list(t.cod) == r + l
+                if ok and l + r:
+                    for idx in it.product(*[range(d) for d in l + r]):
+                        il, ir = idx[:nl], idx[nl:]
+                        for jdx in it.product(*[range(d) for d in r + l]):
+                            want = 1 if (jdx[:nr] == ir and jdx[nr:] == il) else 0
+                            if arr[idx + jdx] != want:
+                                ok = False
+                                break
+                        if not ok:
+                            break
+                if not ok:
+                    out.append(("Tensor.swap does not move the left block of wires to the right of the right block",
+                                {"left": l, "right": r, "replay": "Tensor.swap(Dim(*%r), Dim(*%r)).array" % (l, r)}))
+    return out
